@@ -27,6 +27,7 @@ import (
 	"mycoverif/linkpair"
 	"mycoverif/node"
 	"mycoverif/simnet"
+	"mycoverif/simsync"
 )
 
 var msgTypes = []frame.MessageType{
@@ -597,6 +598,72 @@ func run(e *core.Env) {
 	}
 	if faults > 0 && postBytes > 64<<10 {
 		e.Probe("recovery_needed_more_than_64KiB")
+	}
+
+	// ---- frames handed to a link that is being closed (a quarter of the runs with a live link) ----
+	// One end closes the link while other workers of that router still hold it: the closing
+	// goroutine is held at its first lock of the link registry (peering/ is compiled against the
+	// yielding lock shim), frames are handed to the link meanwhile and the adversary injects a
+	// frame that was never sealed. Until the connection is really closed the link stays what it
+	// was: whatever is still written is sealed, whatever is still read must be.
+	if !closed() && tp.Chance(1, 4) {
+		i := tp.Intn(2)
+		hold := make(chan struct{})
+		armed := true
+		simsync.Blocking = true
+		simsync.Yield = func(op string) {
+			if armed && op == "lock" {
+				armed = false
+				<-hold
+			}
+		}
+		done := make(chan struct{})
+		go func() {
+			defer close(done)
+			L[i].Close(nil)
+		}()
+		simnet.Wait()
+		if !armed {
+			w0 := len(cn.Written)
+			t0 := tokSeq
+			for k, n := 0, 1+tp.Intn(4); k < n; k++ {
+				send(i, 60+tp.Intn(400))
+			}
+			for _, r := range cn.Written[w0:] {
+				if r.Conn != att.Pair || r.EOF {
+					continue
+				}
+				for tk, sf := range sent {
+					var seq int
+					fmt.Sscanf(tk[1:7], "%d", &seq)
+					if seq > t0 && bytes.Contains(r.Data, sf.payload[20:36]) {
+						e.Fail("payload-bytes-in-clear-on-the-wire/link-being-closed", "a frame handed to %s's link while that link was being closed (connection still open) went over the wire with its payload in clear", S[i].Node.Name)
+					}
+				}
+			}
+			if f, err := S[1-i].Node.Inst.Builder.NewFrameV1(S[1-i].Node.IP, S[i].Node.IP, frame.RouterPing, nil, []byte("never sealed, injected while the link is being closed"), nil); err == nil {
+				d, _ := f.FrameDataWithMargins(0, 0)
+				rec := make([]byte, 2+len(d))
+				m.PutUint16(rec[:2], uint16(len(rec)))
+				copy(rec[2:], d)
+				f.ReturnToPool()
+				end := att.Pair.A
+				if i == 1 {
+					end = att.Pair.B
+				}
+				cn.DeliverBytes(end, rec, false)
+				simnet.Wait()
+				collect() // an injected frame that reaches the upper layer is "never sent"
+				e.Fault("inject")
+			}
+			e.Probe("frames_handed_to_a_link_that_is_being_closed")
+		}
+		close(hold)
+		simnet.Wait()
+		<-done
+		simsync.Yield = nil
+		simsync.Blocking = false
+		collect()
 	}
 
 	// ---- confidentiality ----
